@@ -36,8 +36,8 @@ PLANS = {
                          E('C07H', 'plain', 200000, 1800, seed_offset=600000, tier=1), E('C07H', 'asan', 20000, 900, seed_offset=700000, tier=1)]},
     'C08': {'quick': [E('C08', 'plain', 6000, 70), E('C08', 'asan', 600, 40, seed_offset=500000)],
             'thorough': [E('C08', 'plain', 1000000, 3000, tier=1), E('C08', 'asan', 50000, 1500, seed_offset=500000, tier=1)]},
-    'C09': {'quick': [E('C09', 'tsan', 400, 100, run_wall_s=200), E('C09PG', 'tsan', 300, 25, seed_offset=500000, run_wall_s=120),
-                      E('C10', 'tsan', 150, 40, seed_offset=700000, run_wall_s=200), E('C05', 'tsan', 150, 40, seed_offset=800000, run_wall_s=200)],
+    'C09': {'quick': [E('C09', 'tsan', 400, 100, run_wall_s=100), E('C09PG', 'tsan', 300, 25, seed_offset=500000, run_wall_s=100),
+                      E('C10', 'tsan', 150, 40, seed_offset=700000, run_wall_s=100), E('C05', 'tsan', 150, 40, seed_offset=800000, run_wall_s=100)],
             'thorough': [E('C09', 'tsan', 10000, 3600, run_wall_s=600, tier=1), E('C09PG', 'tsan', 5000, 900, seed_offset=500000, run_wall_s=300, tier=1),
                          E('C10', 'tsan', 2000, 1200, seed_offset=700000, run_wall_s=600), E('C05', 'tsan', 2000, 1200, seed_offset=800000, run_wall_s=600)]},
     # C12: seeds 0..1039 enumerate (3-man class, colour assignment, abort step 0..63, abort kind) completely; the rest samples 4-man classes
